@@ -78,6 +78,16 @@ def _entries():
         owned.update({'amplitude': a, 'opd': o})
         return owned, lambda: lt.propagate_dft(w, pixelscale=W.real('du', pos=True), shape=(2, 2), oversample=1).field
 
+    @reg('propagate_dft(shape=, prop_shape= as arrays)')
+    def _(W, lt):
+        # the geometry arguments handed over as integer arrays the caller keeps (np.array([r, c])), with oversampling
+        a = W.reals('a', (2, 2), nz=True)
+        p = lt.Pupil(amplitude=a, focal_length=W.real('f', pos=True), pixelscale=W.real('dx', pos=True))
+        w = lt.Wavefront(W.real('lam', pos=True)) * p
+        shp, prop, ps = rnp.array([3, 3]), rnp.array([2, 2]), rnp.array([1.0, 1.0])
+        du = W.real('du', pos=True)
+        return {'shape': shp, 'prop_shape': prop, 'amplitude': a}, lambda: lt.propagate_dft(w, pixelscale=du, shape=shp, prop_shape=prop, oversample=2).field
+
     @reg('propagate_fft(scratch)')
     def _(W, lt):
         a = W.reals('a', (2, 2), nz=True)
@@ -354,6 +364,18 @@ def run_inplace(W, cfg):
             r = lt.field.insert(lt.field.Field(data=d, offset=[0, 1]), out)
         W.ob_true('returns out', W.same(r, out))
         W.ob('field data untouched', d, d0)
+        if api == 'field.insert':
+            # a weighted complex insert, twice into fresh arrays: the field keeps its data and both inserts give the same result
+            wt = W.real('weight', nz=True)
+            o1 = lt.field.insert(lt.field.Field(data=d, offset=[0, 1]), W.complexes('o1', (3, 3)) * 0, intensity=False, weight=wt)
+            W.ob('weighted complex insert: field data untouched', d, d0)
+            fld = lt.field.Field(data=d, offset=[-1, 0])
+            o2 = lt.field.insert(fld, W.complexes('o2', (3, 3)) * 0, intensity=False, weight=wt)
+            o3 = lt.field.insert(fld, W.complexes('o3', (3, 3)) * 0, intensity=False, weight=wt)
+            W.ob('weighted complex insert: the same Field inserted twice gives the same result', o3, o2)
+            W.ob('weighted complex insert: field data untouched after two inserts', d, d0)
+            o4 = lt.field.insert(fld, W.reals('o4', (3, 3)) * 0, intensity=True, weight=wt)
+            W.ob('weighted intensity insert: field data untouched', d, d0)
     elif api == 'dft2(out=)':
         f, buf = W.complexes('f', (2, 2)), W.complexes('buf', (2, 2))
         f0 = f.copy()
